@@ -403,6 +403,11 @@ struct SubR<E: El> {
     mid: usize,
     last_pending: Option<Arc<Flag>>,
     ended: bool,
+    /// state-based checking (see `poll_sub`)
+    lenient: bool,
+    /// with `lenient`: number of messages broadcast up to the last point at
+    /// which this subscriber was known to be in sync
+    sync_seq: usize,
 }
 
 struct Probe<E: El> {
@@ -783,6 +788,8 @@ impl<E: El> SubR<E> {
                 mid: 0,
                 last_pending: None,
                 ended: false,
+                lenient: false,
+                sync_seq: next_seq,
             },
             snap,
         )
@@ -803,6 +810,13 @@ impl<E: El> Rest<E> {
 
     /// Poll subscriber `i` once and check everything the properties say about
     /// what it may answer.
+    ///
+    /// While a subscriber's items agree diff by diff with what the
+    /// always-drained subscriber received (that agreement is C05's statement),
+    /// its position in the message log is known exactly. Under the other
+    /// properties a disagreement is no violation by itself: the subscriber
+    /// switches to a state-based ("lenient") mode in which only what that
+    /// property states is checked.
     fn poll_sub(&mut self, i: usize, st: &mut Stats) -> Result<Polled, Violation> {
         let step = self.step;
         let prop = self.cfg.prop;
@@ -824,6 +838,21 @@ impl<E: El> Rest<E> {
             StreamR::Batched(b) => Pin::new(b).poll_next(&mut cx),
         };
         st.transitions += 1;
+        // C14: never ready again without the waker of the Pending poll having
+        // been woken.
+        if let Poll::Ready(_) = &res {
+            if let Some(f) = s.last_pending.take() {
+                if !f.woken() {
+                    return Err(viol(
+                        "C14",
+                        step,
+                        format!("ready-without-wake/{:?}", s.kind),
+                        format!("{name}: poll is Ready but the waker of its previous Pending poll was never woken"),
+                    ));
+                }
+                st.mark("pending_then_woken_then_ready");
+            }
+        }
         if !self.cfg.probe {
             // Without the always-drained subscriber there is no message log
             // (these configurations exist so that *all* receivers can go away,
@@ -855,33 +884,186 @@ impl<E: El> Rest<E> {
             };
         }
         let pending_msgs = if s.mid > 0 { total - s.next_seq - 1 } else { total - s.next_seq };
-        // C14: never ready again without the waker of the Pending poll having
-        // been woken.
-        if let Poll::Ready(_) = &res {
-            if let Some(f) = s.last_pending.take() {
-                if !f.woken() {
-                    return Err(viol(
-                        "C14",
-                        step,
-                        format!("ready-without-wake/{:?}", s.kind),
-                        format!("{name}: poll is Ready but the waker of its previous Pending poll was never woken"),
-                    ));
+        // ------------------------------------------------------------------
+        // Does the answer agree structurally with the message log?
+        let mut disagreement: Option<(String, String)> = None;
+        if !s.lenient {
+            match &res {
+                Poll::Pending => {
+                    if alive && (pending_msgs > 0 || s.mid > 0) {
+                        disagreement = Some((
+                            format!("pending-with-undelivered/{:?}", s.kind),
+                            format!("{name}: Pending although {pending_msgs} message(s) are undelivered (mid-batch: {})", s.mid),
+                        ));
+                    }
                 }
-                st.mark("pending_then_woken_then_ready");
+                Poll::Ready(None) => {}
+                Poll::Ready(Some(batch)) => {
+                    let is_reset = batch.len() == 1 && matches!(batch[0], VectorDiff::Reset { .. }) && s.mid == 0;
+                    if batch.is_empty() || is_reset {
+                        // judged below
+                    } else if pending_msgs == 0 && s.mid == 0 {
+                        disagreement = Some((format!("unexpected-item/{:?}", s.kind), format!("{name}: received {:?} although nothing was broadcast for it", batch)));
+                    } else {
+                        match s.kind {
+                            Kind::Plain => {
+                                let exp = &msgs[s.next_seq].diffs[s.mid];
+                                if &batch[0] != exp {
+                                    disagreement = Some((
+                                        format!("diff-differs-from-twin/{}", diff_kind(&batch[0])),
+                                        format!(
+                                            "{name}: received {:?} where the always-drained batched subscriber received {:?} (message {} diff {})",
+                                            batch[0], exp, s.next_seq, s.mid
+                                        ),
+                                    ));
+                                }
+                            }
+                            Kind::Batched => {
+                                let exp: Vec<VectorDiff<E>> = msgs[s.next_seq..].iter().flat_map(|m| m.diffs.iter().cloned()).collect();
+                                if batch != &exp {
+                                    disagreement = Some((
+                                        "batch-differs-from-concatenation".to_string(),
+                                        format!("{name}: received {:?}, the pending messages concatenated are {:?}", batch, exp),
+                                    ));
+                                }
+                            }
+                        }
+                    }
+                }
+            }
+            if let Some((sig, detail)) = disagreement {
+                if prop == "C05" {
+                    return Err(viol("C05", step, sig, detail));
+                }
+                // not this property's business: go on state-based, from the
+                // last point at which this subscriber was certainly in sync
+                // (creation, a Pending answer with replica == contents, a Reset)
+                s.lenient = true;
+                st.hit("subscriber_switched_to_state_based_checking");
             }
         }
+        if s.lenient {
+            return match res {
+                Poll::Pending => {
+                    if !alive {
+                        return Err(viol("C08", step, format!("pending-after-drop/{:?}", s.kind), format!("{name}: Pending although the vector was dropped")));
+                    }
+                    let rep = kids(&s.replica);
+                    if &rep != contents {
+                        return Err(viol(
+                            prop,
+                            step,
+                            format!("replica-diverged-at-pending/{:?}", s.kind),
+                            format!("{name}: stream is Pending, replica {:?} != contents {:?}", rep, contents),
+                        ));
+                    }
+                    s.sync_seq = total;
+                    s.last_pending = Some(flag);
+                    st.hit("pending_checks");
+                    Ok(Polled::Pending)
+                }
+                Poll::Ready(None) => {
+                    if alive {
+                        return Err(viol("C08", step, format!("ended-while-alive/{:?}", s.kind), format!("{name}: stream ended although the vector is alive")));
+                    }
+                    let rep = kids(&s.replica);
+                    if &rep != contents {
+                        return Err(viol(
+                            "C08",
+                            step,
+                            format!("ended-before-final-state/{:?}", s.kind),
+                            format!("{name}: stream ended with replica {:?} but the final contents were {:?}", rep, contents),
+                        ));
+                    }
+                    s.ended = true;
+                    st.mark("ended_on_final_state");
+                    Ok(Polled::End)
+                }
+                Poll::Ready(Some(batch)) => {
+                    if batch.is_empty() {
+                        return Err(viol(content_prop(prop), step, "empty-batch", format!("{name}: received an empty batch")));
+                    }
+                    if batch.len() == 1 && matches!(batch[0], VectorDiff::Reset { .. }) {
+                        let VectorDiff::Reset { values } = &batch[0] else { unreachable!() };
+                        let got = kids_im(values);
+                        if &got != contents {
+                            return Err(viol(
+                                lag_prop(prop),
+                                step,
+                                format!("reset-not-current/{:?}", s.kind),
+                                format!("{name}: Reset carries {:?} but the vector contains {:?}", got, contents),
+                            ));
+                        }
+                        // conservative: everything broadcast since the last point at
+                        // which this subscriber was known to be in sync
+                        if prop == "C06" && total - s.sync_seq <= cap {
+                            return Err(viol(
+                                "C06",
+                                step,
+                                format!("reset-without-lag/{:?}", s.kind),
+                                format!("{name}: received Reset although at most {} message(s) can be pending, capacity {cap}", total - s.sync_seq),
+                            ));
+                        }
+                        s.replica = values.iter().cloned().collect();
+                        s.sync_seq = total;
+                        st.mark("reset_delivered");
+                        return Ok(Polled::Item);
+                    }
+                    if s.sync_seq >= total {
+                        return Err(viol(
+                            prop,
+                            step,
+                            format!("unexpected-item/{:?}", s.kind),
+                            format!("{name}: received {:?} although it was in sync and nothing was broadcast since", batch),
+                        ));
+                    }
+                    for d in &batch {
+                        if let Err(e) = apply_checked(d, &mut s.replica) {
+                            return Err(viol(prop, step, format!("inapplicable/{}", diff_kind(d)), format!("{name}: {e}")));
+                        }
+                    }
+                    if s.kind == Kind::Batched {
+                        let rep = kids(&s.replica);
+                        match prop {
+                            "C06" => {
+                                if &rep != contents {
+                                    return Err(viol(
+                                        "C06",
+                                        step,
+                                        "batched-item-not-up-to-date",
+                                        format!("{name}: after one batched item replica is {:?}, contents {:?}", rep, contents),
+                                    ));
+                                }
+                                s.sync_seq = total;
+                            }
+                            "C07" => {
+                                // never a state strictly inside a transaction: the
+                                // replica must be the state after some whole message
+                                match (s.sync_seq..total).find(|j| msgs[*j].post == rep) {
+                                    Some(j) => s.sync_seq = j + 1,
+                                    None => {
+                                        return Err(viol(
+                                            "C07",
+                                            step,
+                                            "batched-item-exposes-intermediate-state",
+                                            format!("{name}: after one batched item the replica {:?} is not a state the vector had between top-level operations", rep),
+                                        ));
+                                    }
+                                }
+                            }
+                            _ => {}
+                        }
+                    }
+                    Ok(Polled::Item)
+                }
+            };
+        }
+        // ------------------------------------------------------------------
+        // Exact mode: the subscriber's position in the message log is known.
         match res {
             Poll::Pending => {
                 if !alive {
                     return Err(viol("C08", step, format!("pending-after-drop/{:?}", s.kind), format!("{name}: Pending although the vector was dropped")));
-                }
-                if pending_msgs > 0 || s.mid > 0 {
-                    return Err(viol(
-                        prop,
-                        step,
-                        format!("pending-with-undelivered/{:?}", s.kind),
-                        format!("{name}: Pending although {pending_msgs} message(s) are undelivered (mid-batch: {})", s.mid),
-                    ));
                 }
                 let rep = kids(&s.replica);
                 if &rep != contents {
@@ -893,6 +1075,7 @@ impl<E: El> Rest<E> {
                     ));
                 }
                 s.last_pending = Some(flag);
+                s.sync_seq = total;
                 st.hit("pending_checks");
                 Ok(Polled::Pending)
             }
@@ -935,6 +1118,7 @@ impl<E: El> Rest<E> {
                     }
                     s.replica = values.iter().cloned().collect();
                     s.next_seq = total;
+                    s.sync_seq = total;
                     s.mid = 0;
                     st.mark("reset_delivered");
                     if !alive {
@@ -953,14 +1137,6 @@ impl<E: El> Rest<E> {
                         format!("{name}: received Reset with only {pending_msgs} pending message(s), capacity {cap}"),
                     ));
                 }
-                if pending_msgs == 0 && s.mid == 0 {
-                    return Err(viol(
-                        prop,
-                        step,
-                        format!("unexpected-item/{:?}", s.kind),
-                        format!("{name}: received {:?} although nothing was broadcast for it", batch),
-                    ));
-                }
                 if pending_msgs == cap && s.mid == 0 {
                     st.hit("lag_exactly_at_capacity_no_reset");
                 }
@@ -968,18 +1144,6 @@ impl<E: El> Rest<E> {
                     Kind::Plain => {
                         let d = &batch[0];
                         let m = &msgs[s.next_seq];
-                        let exp = &m.diffs[s.mid];
-                        if d != exp {
-                            return Err(viol(
-                                prop,
-                                step,
-                                format!("diff-differs-from-twin/{}", diff_kind(d)),
-                                format!(
-                                    "{name}: received {:?} where the always-drained batched subscriber received {:?} (message {} diff {})",
-                                    d, exp, s.next_seq, s.mid
-                                ),
-                            ));
-                        }
                         if let Err(e) = apply_checked(d, &mut s.replica) {
                             return Err(viol(prop, step, format!("inapplicable/{}", diff_kind(d)), format!("{name}: {e}")));
                         }
@@ -1003,15 +1167,6 @@ impl<E: El> Rest<E> {
                         }
                     }
                     Kind::Batched => {
-                        let exp: Vec<VectorDiff<E>> = msgs[s.next_seq..].iter().flat_map(|m| m.diffs.iter().cloned()).collect();
-                        if batch != exp {
-                            return Err(viol(
-                                prop,
-                                step,
-                                "batch-differs-from-concatenation",
-                                format!("{name}: received {:?}, the pending messages concatenated are {:?}", batch, exp),
-                            ));
-                        }
                         for d in &batch {
                             if let Err(e) = apply_checked(d, &mut s.replica) {
                                 return Err(viol(prop, step, format!("inapplicable/{}", diff_kind(d)), format!("{name}: {e}")));
@@ -1038,6 +1193,7 @@ impl<E: El> Rest<E> {
             }
         }
     }
+
 
     /// Poll the probe once. `Some(batch)` if it received an item.
     fn poll_probe(&mut self, st: &mut Stats) -> Result<Option<Vec<VectorDiff<E>>>, Violation> {
